@@ -93,6 +93,25 @@ func runC06(c *ctx) error {
 			beforeEnc = vl.Enc(dump.Steps(p0.Steps))
 		}
 		unknown := hasUnknownStep(p.Steps)
+		// half of the lists are handed over the way a caller builds them with append: with spare capacity behind the
+		// last step, at every level; the steps a list holds, and their order, are the caller's
+		var listsBefore [][]pipeline.Step
+		if i%2 == 1 {
+			var respare func(ss pipeline.Steps) pipeline.Steps
+			respare = func(ss pipeline.Steps) pipeline.Steps {
+				out := make(pipeline.Steps, len(ss), len(ss)+8)
+				copy(out, ss)
+				for _, st := range out {
+					if g, ok := st.(*pipeline.GroupStep); ok {
+						g.Steps = respare(g.Steps)
+					}
+				}
+				listsBefore = append(listsBefore, append([]pipeline.Step(nil), out...))
+				return out
+			}
+			p.Steps = respare(p.Steps)
+			c.res.Hist("lists-with-spare-capacity")
+		}
 		var err error
 		if pn, msg := guard(func() {
 			err = signature.SignSteps(context.Background(), p.Steps, k.signer, repo, signature.WithEnv(penv))
@@ -102,6 +121,34 @@ func runC06(c *ctx) error {
 		}
 		desc := map[string]any{"document": string(src), "pipeline_env": penvBefore, "key": k.kind}
 		c.res.OracleChecks++
+		if listsBefore != nil {
+			var listsAfter [][]pipeline.Step
+			var collect func(ss pipeline.Steps)
+			collect = func(ss pipeline.Steps) {
+				for _, st := range ss {
+					if g, ok := st.(*pipeline.GroupStep); ok {
+						collect(g.Steps)
+					}
+				}
+				listsAfter = append(listsAfter, append([]pipeline.Step(nil), ss...))
+			}
+			collect(p.Steps)
+			same := len(listsAfter) == len(listsBefore)
+			for li := 0; same && li < len(listsBefore); li++ {
+				if len(listsAfter[li]) != len(listsBefore[li]) {
+					same = false
+					break
+				}
+				for si := range listsBefore[li] {
+					if listsAfter[li][si] != listsBefore[li][si] {
+						same = false
+					}
+				}
+			}
+			if !same {
+				c.res.Fail(core.OracleFailure{What: "SignSteps changed which steps the caller's lists hold (lists handed over with spare capacity)", Input: desc, Got: vl.Enc(dump.Steps(p.Steps)), Want: beforeEnc})
+			}
+		}
 		if len(penv) != len(penvBefore) || (len(penv) > 0 && !reflect.DeepEqual(penv, penvBefore)) {
 			c.res.Fail(core.OracleFailure{What: "SignSteps modified the caller's env map", Input: desc})
 		}
